@@ -89,7 +89,9 @@ def run_gaf_side(scratch, variant, tag):
     out = Outputs()
     d = os.path.join(scratch, tag)
     os.makedirs(d, exist_ok=True)
-    ext = "" if variant[0] == "plain" else ".gz"
+    # compressed variants are written to the SAME path as the plain file before them (gaftools sniffs the magic bytes,
+    # the name carries no information): a decision remembered per path from an earlier call would be stale
+    ext = ""
     g, urecs, srecs = view_dataset()
     gfa = os.path.join(d, "g.gfa")
     fw.write_text(gfa, g.text())
@@ -177,7 +179,7 @@ def compare(res, base, got, what, case):
 
 
 def gaf_part(res, spec, tier, scratch):
-    base = run_gaf_side(scratch, ("plain",), "plain")
+    base = run_gaf_side(scratch, ("plain",), "same")
     g, urecs, srecs = view_dataset()
     text = "".join(r.line() + "\n" for r in urecs)
     variants = vi.bgzf_variants(text, bounds(tier)["bgzf_max_cuts"])
@@ -187,7 +189,9 @@ def gaf_part(res, spec, tier, scratch):
         if i % spec["of"] != spec["shard"]:
             continue
         # the cut positions were computed on the unstable file; they are applied to every file (positions beyond a file's end are ignored)
-        got = run_gaf_side(scratch, v, "var")
+        if i % 5 == 0:
+            run_gaf_side(scratch, ("plain",), "same")  # the plain file is back at the path before the next compressed one
+        got = run_gaf_side(scratch, v, "same")
         res.count("bgzf_layouts")
         if len(v[1]) >= 1:
             res.nt(fw.h64(["gaf", v]))
@@ -218,6 +222,12 @@ def big_part(res, scratch):
         res.nt(fw.h64(["aligned", v]))
         res.count("files_with_line_ends_on_64k_multiples")
         compare(res, base, got, f"1.1 MB file with line ends on multiples of 64 KiB, {v[0]}", {"part": "big", "variant": list(v), "aligned": True})
+    base = run_gaf_side_padded(scratch, ("plain",), "uplain", aligned="2.6MB")
+    for v in (("bgzip64k",), ("pysam",)):
+        got = run_gaf_side_padded(scratch, v, "u" + v[0], aligned="2.6MB")
+        res.nt(fw.h64(["2.6MB", v]))
+        res.count("files_of_2.6MB")
+        compare(res, base, got, f"2.6 MB file of 65,001-byte records, {v[0]}", {"part": "big", "variant": list(v), "aligned": "2.6MB"})
 
 
 def pad_exact(recs, n, size=65536):
@@ -241,12 +251,17 @@ def run_gaf_side_padded(scratch, variant, tag, aligned=False):
 
     def vd2():
         g, u, s_ = vd()
+        if aligned == "2.6MB":
+            # 41 records of 65,001 bytes: lines straddle every power-of-two mark up to 2 MiB
+            return g, pad_exact(u, 41, 65_001), pad_exact(s_, 41, 65_001)
         if aligned:
             return g, pad_exact(u, 17), pad_exact(s_, 17)
         return g, vi.pad_records(u, 150_000), vi.pad_records(s_, 150_000)
 
     def sd2():
         g, r = sd()
+        if aligned == "2.6MB":
+            return g, pad_exact(r, 41, 65_001)
         if aligned:
             return g, pad_exact(r, 17)
         return g, vi.pad_records(r, 150_000)
@@ -379,15 +394,15 @@ def replay(case, scratch):
     if case["part"] == "graph":
         graph_part(res, scratch)
     elif case["part"] == "big":
-        base = run_gaf_side_padded(scratch, ("plain",), "bplain", aligned=bool(case.get("aligned")))
+        base = run_gaf_side_padded(scratch, ("plain",), "bplain", aligned=case.get("aligned") or False)
         v = tuple(case["variant"])
-        got = run_gaf_side_padded(scratch, v, "bvar", aligned=bool(case.get("aligned")))
+        got = run_gaf_side_padded(scratch, v, "bvar", aligned=case.get("aligned") or False)
         compare(res, base, got, f">64 KiB file, {v[0]}", {"part": "big", "variant": list(v)})
     else:
         v = case["variant"]
         variant = ("bgzf", v[1], v[2], v[3])
-        base = run_gaf_side(scratch, ("plain",), "plain")
-        got = run_gaf_side(scratch, variant, "var")
+        base = run_gaf_side(scratch, ("plain",), "same")
+        got = run_gaf_side(scratch, variant, "same")
         compare(res, base, got, f"BGZF layout {v[1:]}", {"part": "gaf", "variant": list(v)})
     item = case.get("item")
     return [f for f in res.failures if item is None or f["case"].get("item") == item] or res.failures
